@@ -263,14 +263,14 @@ mutual
       | none =>
         match nameIndex name sroot with
         | some i => .ok (natToBits (bitLength (sroot.length - 1)) i)
-        | none => .error .foreign       -- KeyError
+        | none => .error .encodeError   -- EncodeError (unknown enumeration value)
       | some adds =>
         match nameIndex name sroot with
         | some i => .ok ([false] ++ natToBits (bitLength (sroot.length - 1)) i)
         | none =>
           match nameIndex name adds with
           | some i => .ok ([true] ++ encNsnnwn i)
-          | none => .error .foreign     -- KeyError
+          | none => .error .encodeError -- EncodeError (unknown enumeration value)
     | .enumerated _ _, _ => .error .foreign
     | .octetString c, .bytes data =>
       let n := data.length
